@@ -321,7 +321,17 @@ pub fn pathv(seed: u64, out: &mut Outcome) {
         let accepted = info.from == b.path.remote || o.may_migrate[node];
         let pkt = peer_rec.as_ref().and_then(|r| r.one_rtt().cloned());
         let (mut trig_strict, mut trig_lenient, mut fresh) = (false, false, false);
-        if let (true, Some(p)) = (accepted, pkt.as_ref()) {
+        // a short-header packet handed to a connection that is still handshaking is DROPPED ("dropping short packet during
+        // handshake"): it was not handled, its number stays fresh (raw seed 2000577: the client's first 1-RTT flight, numbers up
+        // to 129, overtook its Finished; a later replay of number 110 from a third address is then, correctly, the highest
+        // non-probing packet the server ever processed). Counted as handled: packets handed to an established connection, and the
+        // packets of the datagram that completed the handshake when every one of them was authenticated
+        // ... (the authentication COUNTER of the connection is the neutral witness: the datagram counts as handled when as many
+        // packets were authenticated as it holds packets of spaces whose keys existed; raw seeds 3000278 / 2000577: a 1-RTT
+        // packet coalesced behind Initial/Handshake packets was not authenticated although the connection was or became established)
+        let with_keys = peer_rec.as_ref().map_or(0, |r| r.pkts.iter().filter(|p| b.spaces[(p.space as usize).min(2)].has_keys).count() as u64);
+        let handled = with_keys > 0 && a.total_authed_packets - b.total_authed_packets == with_keys && a.state != "handshake";
+        if let (true, true, Some(p)) = (accepted, handled, pkt.as_ref()) {
             let l = &mut o.led[node];
             if l.processed.insert(p.pn) {
                 fresh = true;
@@ -343,7 +353,7 @@ pub fn pathv(seed: u64, out: &mut Outcome) {
                 if std::env::var("VERIF_PATHV_DBG").is_ok() && r.pkts.iter().any(|q| q.has(0x18)) {
                     eprintln!("NCID t={now} node {node} from {} fresh {fresh} b.state {} a.state {} authed {} -> {} pkts {:?}", info.from, b.state, a.state, b.total_authed_packets, a.total_authed_packets, r.pkts.iter().map(|q| (q.space, q.pn, q.long, q.types.clone())).collect::<Vec<_>>());
                 }
-                let all_processed = b.state == "established" || a.total_authed_packets - b.total_authed_packets == r.pkts.len() as u64;
+                let all_processed = handled;
                 for q in r.pkts.iter().filter(|_| fresh && a.state == "established" && all_processed) {
                     for (s, rpt, id) in q.new_cids() {
                         if !o.supplied[node].iter().any(|(s2, _)| *s2 == s) {
